@@ -194,6 +194,16 @@ def judge(run, sim, reqs, fail_tokens, witness, stats, lossless):
                           m["token"].hex())
         elif m["token"] in fail_tokens and 3 in replies:
             stats["resets_for_fail"] += 1
+        elif 3 in replies and m["token"] not in fail_tokens and any(
+                ev.get("mid") == mid and ev.get("verdict") == 1 and ev["t"] <= e["t"]
+                for ev in rsp.get(m["token"].hex(), [])):
+            # the handler took this very message (same mid, verdict OK): it - and any later
+            # copy of it - is acknowledged, whatever the verdict on some earlier response of
+            # the session was.  (Another response with the same token but a new mid, e.g. from a
+            # server that answered a duplicated request again, may rightly be reset.)
+            run.violation("accepted-con-response-answered-with-reset", w,
+                          "CON response mid %d (token %s, handler verdict OK) delivered at %d was "
+                          "answered with a Reset" % (mid, m["token"].hex(), e["t"]))
     if lossless:
         for typ, code, tokb in reqs:
             if len(rsp.get(tokb.hex(), [])) != 1:
